@@ -16,11 +16,12 @@ case "$CFG" in
   std)   FEAT=() ;;
   serde) FEAT=(--features serde) ;;
   nostd) FEAT=(--no-default-features) ;;
+  dbg)   FEAT=() ;;   # the default build as `cargo test` / a dev profile compiles it: debug assertions on
   *) echo "extract: unknown config $CFG" >&2; exit 3 ;;
 esac
 cd "$SRC" || exit 3
 LD_LIBRARY_PATH="$SYSROOT/lib" \
-RUSTFLAGS="-Zmir-opt-level=0 -Awarnings -Cdebug-assertions=off -Coverflow-checks=on" \
+RUSTFLAGS="-Zmir-opt-level=0 -Awarnings -Cdebug-assertions=$([ "$CFG" = dbg ] && echo on || echo off) -Coverflow-checks=on" \
 RUSTC_WORKSPACE_WRAPPER="$DRV" \
 CARGO_TARGET_DIR="$TGT" CARGO_NET_OFFLINE=true \
 PQFACTS_OUT="$OUT" PQFACTS_CRATES="$CRATE" PQFACTS_CONFIG="$CFG" \
